@@ -260,3 +260,30 @@ def run(prog: Program, res: Result) -> None:
                 else:
                     res.fail("C03.R4", file=mod.relpath, line=c.lineno, qualname=q, construct=f"{norm(c)} on the instance", message=f"`{norm(c)}` asks the instance: an object whose __getattr__ answers every name (attribute-style dicts, mocks) is sent down the awaitable path, the await fails and render_async() sees the variable as undefined while render() finds it", what=what)
     res.floor("C03.R4", "async hook detections", n_hook, 1)
+
+    # ------------------------------------------------------------------ R5 async element reads go through the awaiting helper
+    res.rule("C03.R5", "in the async item getter every element of the data object is read through the helper that awaits __getitem_async__ when the object has one: no direct `obj[…]`, `obj.items()`, `obj.values()` or `obj.get(…)` outside that helper (those read an awaitable drop through its synchronous __getitem__, and render_async then shows what render would not)")
+    n_r5 = 0
+    for fi in sorted(prog.all_functions(), key=lambda f: (f.file, f.node.lineno)):
+        if not isinstance(fi.node, ast.AsyncFunctionDef):
+            continue
+        helpers = [h for h in ast.walk(fi.node) if isinstance(h, (ast.FunctionDef, ast.AsyncFunctionDef)) and h is not fi.node and any(isinstance(c, ast.Constant) and c.value == "__getitem_async__" for c in ast.walk(h))]
+        if not helpers:
+            continue
+        data_params = [p for p in fi.params() if p not in ("self", "cls", "key", "context")]
+        inside_helper = {id(x) for h in helpers for x in ast.walk(h)}
+        for x in ast.walk(fi.node):
+            if id(x) in inside_helper:
+                continue
+            direct = None
+            if isinstance(x, ast.Subscript) and isinstance(x.ctx, ast.Load) and isinstance(x.value, ast.Name) and x.value.id in data_params:
+                direct = x
+            elif isinstance(x, ast.Call) and isinstance(x.func, ast.Attribute) and x.func.attr in ("items", "values", "get", "__getitem__") and isinstance(x.func.value, ast.Name) and x.func.value.id in data_params:
+                direct = x
+            if direct is not None:
+                n_r5 += 1
+                res.fail("C03.R5", file=fi.file, line=direct.lineno, qualname=fi.qualname, construct=f"{fi.qualname}: direct element read {norm(direct, 40)} beside the awaiting helper", message=f"{fi.qualname} reads `{norm(direct, 50)}` directly although it has a helper that awaits __getitem_async__: an awaitable drop is read through its synchronous __getitem__ here, so render_async() and render() can differ", what=f"{fi.qualname}: element reads go through the awaiting helper")
+        calls = [c for c in ast.walk(fi.node) if id(c) not in inside_helper and isinstance(c, ast.Call) and isinstance(c.func, ast.Name) and c.func.id in {h.name for h in helpers}]
+        n_r5 += len(calls)
+        res.ok("C03.R5", f"{fi.file}:{fi.node.lineno} {fi.qualname}", f"{fi.qualname}: {len(calls)} element reads through {[h.name for h in helpers]}", "no direct element read outside the helper (findings listed separately if any)")
+    res.floor("C03.R5", "element reads in async getters with an awaiting helper", n_r5, 5)
